@@ -165,19 +165,26 @@ class Check:
         return ok
 
     def harness_modfile(self):
-        """go.mod/go.sum pair for the harness module with `replace => <repo>`; used through -modfile."""
+        """go.mod/go.sum pair for the harness module with `replace => <repo>`; used through -modfile.
+        Written atomically and only when the content changes: other processes' `go list` read these files concurrently."""
         moddir = os.path.join(VERIF, "work", "bin")
         tag = hashlib.sha1(self.repo.encode()).hexdigest()[:8]
         mod = os.path.join(moddir, "harness-%s.mod" % tag)
         tmpl = open(os.path.join(VERIF, "harness", "go.mod.tmpl")).read().replace("@REPO@", self.repo)
-        with open(mod, "w") as f:
-            f.write(tmpl)
         sums = open(os.path.join(self.repo, "go.sum")).read()
         extra = os.path.join(VERIF, "harness", "go.sum.extra")
         if os.path.exists(extra):
             sums += open(extra).read()
-        with open(mod[:-4] + ".sum", "w") as f:
-            f.write(sums)
+        for path, content in ((mod, tmpl), (mod[:-4] + ".sum", sums)):
+            try:
+                if open(path).read() == content:
+                    continue
+            except OSError:
+                pass
+            tmp = "%s.tmp%d" % (path, os.getpid())
+            with open(tmp, "w") as f:
+                f.write(content)
+            os.replace(tmp, path)
         return mod
 
     def build_harness(self, name, tags="verif", race=False, extra_env=None):
